@@ -13688,6 +13688,13 @@ func (p *parser) visitExprInOut(expr js_ast.Expr, in exprIn) (js_ast.Expr, exprO
 					HasPropertyKeyComment: e.HasPropertyKeyComment,
 				}}, exprOut{}
 			}
+		} else if in.shouldMangleStringsAsProps && p.options.mangleProps != nil {
+			// A quoted property that is preserved must not collide with the new
+			// name of a mangled property, so its name is not available
+			if p.reservedProps == nil {
+				p.reservedProps = make(map[string]bool)
+			}
+			p.reservedProps[helpers.UTF16ToString(e.Value)] = true
 		}
 
 	case *js_ast.ENumber:
